@@ -151,6 +151,7 @@ def build_fn(f, sources, fnmeta):
     if o.get('src') == 'expanded' or o.get('norm'):
         stripped = X.normalize_expanded(stripped)
     ctx = T.Ctx(o['name'], o.get('xlate', 'verbatim'), o.get('st'), fnmeta['callees'])
+    ctx.slices = bool(o.get('slices'))
     sig, body = T.translate(stripped, ctx, [' '.join(x.strip() for x in c) for c in f.closures])
     for pat, rep, optional in f.substs:
         body2, n = re.subn(pat, rep, body, flags=re.S)
@@ -196,7 +197,7 @@ def build_fn(f, sources, fnmeta):
     for pos, txt in sorted(inserts, key=lambda x: -x[0]):
         blines[pos:pos] = txt
     inj_body = '\n'.join(blines)
-    contract = '\n'.join(f.contract)
+    contract = merge_extra_requires('\n'.join(f.contract))
     hard = [x for x in lost if x.startswith('loop ')]
     if hard:
         # a loop invariant no longer finds its loop: the function cannot be checked this run (its contract is
@@ -221,6 +222,18 @@ def build_fn(f, sources, fnmeta):
         'lost_hints': lost, 'not_checked': bool(hard),
     }
     return full, meta
+
+
+def merge_extra_requires(contract):
+    """lines `requires+ <clauses>` written after a shared contract (//@contract @file) are moved into its requires block"""
+    extra = re.findall(r'^\s*requires\+\s+(.*)$', contract, re.M)
+    if not extra:
+        return contract
+    contract = re.sub(r'^\s*requires\+\s+.*\n?', '', contract, flags=re.M)
+    m = re.search(r'^(\s*)requires\b', contract, re.M)
+    if not m:
+        return '  requires\n    ' + '\n    '.join(extra) + '\n' + contract
+    return contract[:m.end()] + '\n      ' + '\n      '.join(extra) + '\n     ' + contract[m.end():]
 
 
 def build_frag(f, sources, fnmeta):
